@@ -3,7 +3,7 @@
    parser produces). *)
 From Coq Require Import Lia.
 From DepsDev Require Import Lib.Base Lib.Order Lib.BytesFacts Semver.Version Semver.Maven Semver.MavenParse
-  Semver.MavenDomain Semver.MavenPrintable Semver.Compare Semver.Maven_proofs Semver.MavenParse_proofs.
+  Semver.MavenDomain Semver.MavenPrintable Semver.Compare Semver.Maven_proofs Semver.MavenParse_proofs Gen.MavenVariants.
 Local Open Scope Z_scope.
 
 (* ------------------------------------------------------------------ homogeneous texts *)
@@ -137,14 +137,36 @@ Proof.
   destruct (Z.eqb_spec (maven_category (c :: s')) cat_separator); [contradiction|]. reflexivity.
 Qed.
 
+Lemma canon_with_false e0 t : maven_canon_with false (e0 :: t) = me_str e0 ++ maven_canon_from false t.
+Proof. reflexivity. Qed.
+
 Lemma scan_all e0 t : pstr (me_str e0) -> Forall pe t ->
-  mvn_scan (S (length (maven_canon (e0 :: t)))) (maven_canon (e0 :: t)) true cat_unknown [] = Ok (strip (e0 :: t)).
+  mvn_scan (S (length (maven_canon_with false (e0 :: t)))) (maven_canon_with false (e0 :: t)) true cat_unknown [] = Ok (strip (e0 :: t)).
 Proof.
-  intros P0 Ht. unfold maven_canon.
-  change (maven_canon_from true (e0 :: t)) with (me_str e0 ++ maven_canon_from false t).
+  intros P0 Ht. rewrite canon_with_false.
   rewrite (scan_first _ _ _ _ _ P0 (starts_sep_canon t Ht)).
   rewrite (scan_tail t) by (auto; pose proof (canon_len t Ht); rewrite app_length; lia).
   reflexivity.
+Qed.
+
+Lemma scan_all_with h e0 t : pstr (me_str e0) -> Forall pe t -> head_ok_b h (e0 :: t) = true ->
+  mvn_scan (S (length (maven_canon_with h (e0 :: t)))) (maven_canon_with h (e0 :: t)) true cat_unknown [] =
+  Ok (strip_with h (e0 :: t)).
+Proof.
+  intros P0 Ht Hh. destruct h; [|apply scan_all; auto].
+  unfold strip_with. simpl in Hh.
+  destruct (N.eqb_spec (me_sep e0) 0) as [Z|Z].
+  - assert (E : maven_canon_with true (e0 :: t) = maven_canon_with false (e0 :: t)).
+    { unfold maven_canon_with. rewrite Z. reflexivity. }
+    rewrite E, (scan_all e0 t P0 Ht). f_equal. cbn [strip map]. f_equal. unfold strip1. rewrite Z. reflexivity.
+  - assert (S : me_sep e0 = 45%N \/ me_sep e0 = 46%N).
+    { simpl in Hh. apply orb_true_iff in Hh. destruct Hh as [Hh|Hh]; [left | right]; apply N.eqb_eq; auto. }
+    assert (E : maven_canon_with true (e0 :: t) = maven_canon_from false (e0 :: t)).
+    { unfold maven_canon_with. apply N.eqb_neq in Z. rewrite Z. reflexivity. }
+    rewrite E. rewrite (scan_tail (e0 :: t)).
+    + reflexivity.
+    + constructor; auto. split; auto.
+    + pose proof (canon_len (e0 :: t) ltac:(constructor; [split; auto | auto])). lia.
 Qed.
 
 (* ------------------------------------------------------------------ the round trip *)
@@ -158,23 +180,29 @@ Definition mk_version (s : bytes) (l : list mvn_elem) (b : bool) : version :=
   {| v_sys := SMaven; v_user_num_count := 0; v_is_prerelease := b; v_str := s;
      v_num := []; v_pre := []; v_build := []; v_ext := MavenExt l |}.
 
-Theorem maven_roundtrip l : printable_b l = true ->
-  exists b, mvn_parse (maven_canon l) = Some (Ok (mk_version (maven_canon l) (head_sep0 l) b)).
+(* for both variants of the printer (h) and of the zero test (z) *)
+Theorem maven_roundtrip_with h z l : printable_with h z l = true ->
+  exists b, mvn_parse_with z (maven_canon_with h l) =
+            Some (Ok (mk_version (maven_canon_with h l) (head_with h l) b)).
 Proof.
   destruct l as [|e0 t].
-  - intros _. exists false. reflexivity.
-  - unfold printable_b. intros H. repeat (apply andb_true_iff in H; destruct H as [H ?]).
+  - intros _. exists false. destruct h; reflexivity.
+  - unfold printable_with. intros H. repeat (apply andb_true_iff in H; destruct H as [H ?]).
     apply pstr_b_sound in H.
     assert (Ht : Forall pe t).
-    { apply Forall_forall. intros e He. apply pe_b_sound. rewrite forallb_forall in H4. auto. }
+    { apply Forall_forall. intros e He. apply pe_b_sound. rewrite forallb_forall in H5. auto. }
     apply beqb_eq in H3.
-    destruct (mvn_trim (strip (e0 :: t))) as [l'| | |] eqn:TR; try discriminate. apply mvn_list_eqb_eq in H1. subst l'.
-    destruct (mvn_ints (strip (e0 :: t))) as [r| | |] eqn:IN; try discriminate. apply mvn_list_eqb_eq in H0.
-    exists (snd r). unfold mvn_parse, mvn_parse_with. rewrite H2. unfold mvn_init_with. rewrite H3.
-    unfold mvn_trim in TR.
-    rewrite (scan_all e0 t H Ht). cbn [bind]. rewrite TR. cbn [bind].
+    destruct (mvn_trim_with z (strip_with h (e0 :: t))) as [l'| | |] eqn:TR; try discriminate. apply mvn_list_eqb_eq in H1. subst l'.
+    destruct (mvn_ints (strip_with h (e0 :: t))) as [r| | |] eqn:IN; try discriminate. apply mvn_list_eqb_eq in H0.
+    exists (snd r). unfold mvn_parse_with. rewrite H2. unfold mvn_init_with. rewrite H3.
+    rewrite (scan_all_with h e0 t H Ht H4). cbn [bind]. rewrite TR. cbn [bind].
     rewrite IN. cbn [bind]. rewrite H0. reflexivity.
 Qed.
+
+(* the variant of the tree *)
+Theorem maven_roundtrip l : printable_b l = true ->
+  exists b, mvn_parse (maven_canon l) = Some (Ok (mk_version (maven_canon l) (head_with go_mvn_canon_head_sep l) b)).
+Proof. apply maven_roundtrip_with. Qed.
 
 (* compare is reflexive on every list *)
 Lemma maven_compare_refl l : maven_compare l l = Ok 0.
@@ -188,18 +216,22 @@ Proof.
   rewrite L. reflexivity.
 Qed.
 
-(* the three clauses for a printable list whose first separator is 0 *)
-Theorem maven_roundtrip_clauses l : printable_b l = true -> head_sep0 l = l ->
-  exists b, mvn_parse (maven_canon l) = Some (Ok (mk_version (maven_canon l) l b)) /\
-            maven_compare l l = Ok 0 /\ maven_canon l = maven_canon l.
+(* the three clauses: with the first separator printed, for every printable list; without, for
+   the lists whose first separator is 0 *)
+Theorem maven_roundtrip_clauses h z l : printable_with h z l = true -> head_with h l = l ->
+  exists b, mvn_parse_with z (maven_canon_with h l) = Some (Ok (mk_version (maven_canon_with h l) l b)) /\
+            maven_compare l l = Ok 0.
 Proof.
-  intros P E. destruct (maven_roundtrip l P) as [b H]. rewrite E in H. exists b. split; auto. split; auto. apply maven_compare_refl.
+  intros P E. destruct (maven_roundtrip_with h z l P) as [b H]. rewrite E in H. exists b. split; auto. apply maven_compare_refl.
 Qed.
 
-(* same canonical string, first separators 0: same list *)
-Theorem maven_canon_inj l1 l2 : printable_b l1 = true -> printable_b l2 = true ->
-  head_sep0 l1 = l1 -> head_sep0 l2 = l2 -> maven_canon l1 = maven_canon l2 -> l1 = l2.
+Lemma head_with_true l : head_with true l = l.
+Proof. reflexivity. Qed.
+
+(* same canonical string: same list *)
+Theorem maven_canon_inj h z l1 l2 : printable_with h z l1 = true -> printable_with h z l2 = true ->
+  head_with h l1 = l1 -> head_with h l2 = l2 -> maven_canon_with h l1 = maven_canon_with h l2 -> l1 = l2.
 Proof.
-  intros P1 P2 E1 E2 C. destruct (maven_roundtrip l1 P1) as [b1 H1], (maven_roundtrip l2 P2) as [b2 H2].
-  rewrite C in H1. rewrite H1 in H2. inversion H2. congruence.
+  intros P1 P2 E1 E2 C. destruct (maven_roundtrip_with h z l1 P1) as [b1 H1], (maven_roundtrip_with h z l2 P2) as [b2 H2].
+  rewrite C, E1 in H1. rewrite E2 in H2. rewrite H1 in H2. inversion H2. congruence.
 Qed.
